@@ -1500,10 +1500,10 @@ def reuse_sessions(ctx):
         pairs = list(itertools.combinations(range(n), 2))
         triples = list(itertools.combinations(range(n), 3))
         sets = [(i,) for i in range(n)]
-        sets += rng.sample(pairs, min(len(pairs), 14 if ctx.quick else 150))
-        sets += rng.sample(triples, min(len(triples), 3 if ctx.quick else 40))
+        sets += rng.sample(pairs, min(len(pairs), 40 if ctx.quick else 150))
+        sets += rng.sample(triples, min(len(triples), 8 if ctx.quick else 40))
         twice = [(i, i) for i in range(n)]
-        sets += twice if not ctx.quick else rng.sample(twice, min(len(twice), 6))
+        sets += twice
         for idxs in sets:
             # every order of the set, one after the other, then the first order again
             perms = sorted(set(itertools.permutations(idxs)))
@@ -1520,7 +1520,7 @@ def reuse_sessions(ctx):
             rng.shuffle(order)
             out.append([(fi, (m,)) for fi in order])
     # mixed sessions: several functions, several decorators, shared where they coincide
-    for _ in range(30 if ctx.quick else 800):
+    for _ in range(80 if ctx.quick else 800):
         sess = []
         for _ in range(rng.choice([5, 6, 8])):
             fi = rng.randrange(len(FUNCS))
